@@ -308,6 +308,9 @@ func randRtp(r *rand.Rand) []byte {
 	}
 	if r.Intn(3) == 0 {
 		sim[0], sim[1] = 0, 0
+		if r.Intn(2) == 0 {
+			sim[2], sim[3] = 0, 0 // a short number: 000000001234
+		}
 	}
 	b = append(b, sim...)
 	b = append(b, byte(r.Intn(256)), byte(dt<<4|r.Intn(16)))
@@ -327,6 +330,20 @@ func randRtp(r *rand.Rand) []byte {
 	if n > 4 && r.Intn(3) == 0 {
 		copy(pay, []byte{0x30, 0x31, 0x63, 0x64})
 	}
+	// payloads that begin like something a decoder might want to "understand": the body is opaque, whatever it starts with
+	switch r.Intn(10) {
+	case 0: // an audio chip's frame head: 00 01 XX 00 followed by XX 16-bit samples
+		xx := 1 + r.Intn(60)
+		pay = append([]byte{0, 1, byte(xx), 0}, make([]byte, 2*xx)...)
+		r.Read(pay[4:])
+	case 1: // H.264 / H.265 start codes, JPEG, RIFF, ADTS
+		magic := [][]byte{{0, 0, 0, 1, 0x67}, {0, 0, 1, 0x65}, {0xff, 0xd8, 0xff, 0xe0}, []byte("RIFF"), {0xff, 0xf1, 0x50, 0x80}, {0, 0, 0, 1, 0x40, 1}}[r.Intn(6)]
+		pay = append(append([]byte{}, magic...), pay...)
+		if len(pay) > 1200 {
+			pay = pay[:1200]
+		}
+	}
+	n = len(pay)
 	b = append(b, byte(n>>8), byte(n))
 	return append(b, pay...)
 }
